@@ -552,12 +552,19 @@ def job_protocol(ctx, k):
         return Qo
     ops = [('slerp_nan()', 'nan', lambda Q: Q.slerp_nan()), ('slerp_nan()', 'nan+jumps', lambda Q: Q.slerp_nan()), ('remove_jumps()', 'jumps', lambda Q: Q.remove_jumps()),
            ('rotate_by(q, inplace=True)', 'plain', lambda Q: Q.rotate_by(rq.qunit(A.MENU[(k + 2) % 8]).copy(), inplace=True)),
-           ('remove_jumps() then rotate_by(inplace=True)', 'jumps', lambda Q: (Q.remove_jumps(), Q.rotate_by(rq.qunit(A.MENU[(k + 2) % 8]).copy(), inplace=True)))]
+           ('remove_jumps() then rotate_by(inplace=True)', 'jumps', lambda Q: (Q.remove_jumps(), Q.rotate_by(rq.qunit(A.MENU[(k + 2) % 8]).copy(), inplace=True))),
+           # rows written directly into the object / into its .array (the object and .array are one memory)
+           ('Q[4] = q; Q[7] = p', 'plain', lambda Q: (Q.__setitem__(4, rq.qunit(A.MENU[(k + 2) % 8]).copy()), Q.__setitem__(7, rq.qunit(A.MENU[(k + 5) % 8]).copy()))),
+           ('Q.array[4] = q', 'plain', lambda Q: Q.array.__setitem__(4, rq.qunit(A.MENU[(k + 2) % 8]).copy())),
+           ('Q[2:5] = rows', 'jumps', lambda Q: Q.__setitem__(slice(2, 5), np.array([rq.qunit(A.MENU[(k + j) % 8]) for j in (1, 2, 3)])))]
     for on, kind, op in ops:
         key = f'op={on} data={kind} k{k}'
         ctx.evals += 1
         try:
             Q = build(kind)
+            if 'nan' not in kind:
+                # the array has been USED before it is changed (conversions asked once already): what is asked afterwards describes the new rows
+                Q.to_DCM(); Q.to_angles(); Q.conjugate(); Q.is_identity(); Q.average()
             op(Q)
             views = {'np.asarray(Q)': np.asarray(Q, float), 'Q.to_array()': np.asarray(Q.to_array(), float), 'Q.array': np.asarray(Q.array, float),
                      'iteration': np.array([np.asarray(r, float) for r in Q]), 'indexing': np.array([np.asarray(Q[i], float) for i in range(len(rows))]),
@@ -572,8 +579,12 @@ def job_protocol(ctx, k):
         if not np.isnan(ref).any() and np.allclose(np.linalg.norm(ref, axis=1), 1.0, atol=1e-9):
             try:
                 Rb = np.asarray(Q.to_DCM())
-                for i in range(0, len(rows), 3):
-                    ctx.close(np.asarray(Quaternion(np.asarray(Q[i], float)).to_DCM()), Rb[i], TOL, 'after an in-place method Quaternion(Q[i]).to_DCM() = Q.to_DCM()[i]', f'{key} row={i}')
+                Ab = np.asarray(Q.to_angles(), float); Cb = np.asarray(Q.conjugate(), float)
+                for i in range(len(rows)):
+                    qi_ = Quaternion(np.asarray(Q[i], float))
+                    ctx.close(np.asarray(qi_.to_DCM()), Rb[i], TOL, 'after an in-place method Quaternion(Q[i]).to_DCM() = Q.to_DCM()[i]', f'{key} row={i}')
+                    ctx.close(np.asarray(qi_.to_angles(), float), Ab[i], 1e-12, 'after an in-place method / a row write Quaternion(Q[i]).to_angles() = Q.to_angles()[i]', f'{key} row={i}')
+                    ctx.close(np.asarray(qi_.conjugate, float), Cb[i], TOL, 'after an in-place method / a row write Quaternion(Q[i]).conjugate = Q.conjugate()[i]', f'{key} row={i}')
             except Exception as ex:
                 ctx.fail('after an in-place method the twin conversion raises', key, repr(ex)[:160], 'matrices')
         ctx.cls('protocol:in-place')
